@@ -1,14 +1,14 @@
 \* as coded, ONE client (sequential histories), small threshold: replayed on the
-\* real code with 1022 filler elements per set so that T = 2 corresponds to 1024;
+\* real code with 1023 filler elements per set so that T = 1 corresponds to 1024;
 \* prints the history of every get that violates ReadYourWrites
 SPECIFICATION Spec
 CONSTANTS
   Keys = {0}
-  Elems = {1, 2, 3}
+  Elems = {1, 2}
   Clients = {1}
   MaxBatches = 2
-  MaxOps = 5
-  T = 2
+  MaxOps = 4
+  T = 1
   LostInsert = TRUE
   FlushMax = TRUE
   FoldCancel = TRUE
